@@ -193,6 +193,17 @@ def run(rep):
             C05.rule_rebase(rep, t, m)
             C05.rule_preroll(rep, t, m)
         rep.guarded("R-C05-shift", carry)
+    # ... and the samples the window needs must have been requested: provisioning of the fixed-output type (shared with C06)
+    import C06
+
+    def prov(rep):
+        m = asyncmodel.extract(rep.ctx.facts, "FastFixedOut")
+        for a in m["arms"]:
+            a.setdefault("t_before_idx", True)
+        C06.rule_provision(rep, "FastFixedOut", m)
+    rep.guarded("R-C06-provision", prov)
+    rep.floor("R-C06-provision", 7)
+    rep.clause("R-C06-provision", "FastFixedOut requests enough input for every sample its windows read, per interpolation variant (shared with C06)")
     rep.floor("R-C05-shift", 6)
     rep.floor("R-C05-rebase", 4)
     rep.floor("R-C05-preroll", 14)
